@@ -143,9 +143,55 @@ def gen_many_blobs_script(rng):
     return '\n'.join(L) + '\n'
 
 
+def gen_wide_script(rng):
+    """One blob with 35..120 records of two to four interleaved keys and only two timestamp values (long runs of equal
+    timestamps, which are ranked by their order in the blob), index file removed or made useless: the rebuilt index has to
+    rank the ties exactly as the live one did."""
+    K = 4
+    nk = rng.choice([2, 3, 4])
+    keys = [(i + 1).to_bytes(K, 'big').hex() for i in range(nk)]
+    L = ['cfg K=4 dup=1 group=2 bloom=none init=eager runtime=%s' % rng.choice(['mt', 'ct']), 'open']
+    n = rng.choice([35, 48, 70, 120])
+    for seed in range(1, n + 1):
+        L.append('W %s %d - %d %d' % (rng.choice(keys), rng.choice([5, 5, 7]), rng.choice([5, 9]), seed))
+    qs = []
+    for k in keys:
+        qs += ['R %s' % k, 'C %s' % k, 'RD %s' % k]
+    L.append('#PRE')
+    L += qs + ['counts']
+    L.append(rng.choice(['close', 'drop']))
+    L.append(rng.choice(['rmindex 0', 'rmindex 0', 'trunc index 0 83', 'trunc index 0 200']))
+    L.append('cfgnext init=%s' % rng.choice(['eager', 'lazy']))
+    L.append('open')
+    L += qs + ['counts']
+    L += ['W %s 1000 - 5 777' % keys[0], 'R %s' % keys[0], 'close', 'open', 'R %s' % keys[0]]
+    return '\n'.join(L) + '\n'
+
+
+def gen_prefix_script(rng):
+    """The blob file name prefix is a free configuration string: prefixes that contain dots (finding F28: the id was
+    taken from behind the FIRST dot of the file name), with index files removed or not."""
+    g = Gen(rng, queries=(), maint=0.3, restart=0.0, deletes=0.2, bg=0.0, nops=rng.randrange(4, 12), lazy=False,
+            runtime=rng.choice(['mt', 'ct']), extra_cfg=' prefix=%s' % rng.choice(['my.pre', 'a.b.c', 'x.1', 'v2.0', 'p-q_r']))
+    L = g.build().strip().split('\n')
+    qs = []
+    for k in g.keys:
+        qs += ['R %s' % k, 'C %s' % k, 'RD %s' % k]
+    L.append('#PRE')
+    L += qs + ['counts']
+    L.append(rng.choice(['close', 'close', 'drop']))
+    for i in rng.sample(range(4), rng.choice([0, 0, 1, 2])):
+        L.append('rmindex %d' % i)
+    L.append('cfgnext init=%s' % rng.choice(['eager', 'lazy']))
+    L.append('open')
+    L += qs + ['counts']
+    L += ['W %s 1000 - 5 777' % g.keys[0], 'R %s' % g.keys[0], 'force_update always', 'counts', 'close', 'open', 'R %s' % g.keys[0], 'counts']
+    return '\n'.join(L) + '\n'
+
+
 def gen(tier, rng):
     n = 240 if tier == 'quick' else 5000
-    return [('many%05d' % i, gen_many_blobs_script(rng)) for i in range(max(4, n // 20))] + [('restart%05d' % i, gen_script(rng)) for i in range(n)] + [('idxopen%05d' % i, gen_index_open_script(rng)) for i in range(n // 2)]
+    return [('many%05d' % i, gen_many_blobs_script(rng)) for i in range(max(4, n // 20))] + [('restart%05d' % i, gen_script(rng)) for i in range(n)] + [('idxopen%05d' % i, gen_index_open_script(rng)) for i in range(n // 2)] + [('prefix%05d' % i, gen_prefix_script(rng)) for i in range(n // 12)] + [('wide%05d' % i, gen_wide_script(rng)) for i in range(n // 12)]
 
 
 def parse_counts(o):
@@ -182,7 +228,12 @@ def oracle(lines, io, spec=None):
                 tree_off = 83 + meta + 16
                 if tree_off <= n < len(b):
                     tag = '[F5] '
-    if any(l.startswith('fail append') for l in lines[:end]) and any(' Err Io' in o for o in io[:end]):
+    # F21 is the class "a record append wrote SHORT (at least one byte of the record reached the blob file)"; an append that
+    # failed without writing anything leaves no trace since f669484 and is not in the class
+    def short_positive(l):
+        t = l.split()
+        return len(t) >= 5 and t[0] == 'fail' and t[1] == 'append' and t[2] == '.blob' and t[4].startswith('short:') and int(t[4][6:]) > 0
+    if any(short_positive(l) for l in lines[:end]) and any(' Err Io' in o for o in io[:end]):
         tag = '[F21] '
     if f2:
         tag = '[F2] '
